@@ -638,6 +638,12 @@ func (tr *goTranslator) expr(e Expr) (string, error) {
 			}
 			tr.imports["encoding/binary"] = true
 			return fmt.Sprintf("binary.BigEndian.Uint32(%s[%s:])", as[0], as[1]), nil
+		case "BE64":
+			if err := argsOf(); err != nil {
+				return "", err
+			}
+			tr.imports["encoding/binary"] = true
+			return fmt.Sprintf("binary.BigEndian.Uint64(%s[%s:])", as[0], as[1]), nil
 		case "bytesEq":
 			if err := argsOf(); err != nil {
 				return "", err
